@@ -1,1 +1,1 @@
--- regenerated modules are imported here as they are added
+import CmGen.NamedColors
